@@ -126,3 +126,44 @@ pub fn panic_sig(loc: &str, msg: &str) -> String {
         .collect();
     format!("panic:{file}:{head}")
 }
+
+/// Cheap accumulator with static keys; turned into `Summary` counters once per run (building
+/// a `String` key per counter and history is what dominates tiny Miri histories otherwise).
+#[derive(Default)]
+pub struct Acc {
+    c: std::collections::BTreeMap<(&'static str, &'static str), u64>,
+    mn: std::collections::BTreeMap<(&'static str, &'static str), i64>,
+    mx: std::collections::BTreeMap<(&'static str, &'static str), i64>,
+}
+
+impl Acc {
+    pub fn count(&mut self, prefix: &'static str, name: &'static str, n: u64) {
+        *self.c.entry((prefix, name)).or_insert(0) += n;
+    }
+    pub fn min(&mut self, prefix: &'static str, name: &'static str, v: i64) {
+        let e = self.mn.entry((prefix, name)).or_insert(i64::MAX);
+        *e = (*e).min(v);
+    }
+    pub fn max(&mut self, prefix: &'static str, name: &'static str, v: i64) {
+        let e = self.mx.entry((prefix, name)).or_insert(i64::MIN);
+        *e = (*e).max(v);
+    }
+    fn key(p: &str, n: &str) -> String {
+        if p.is_empty() {
+            n.to_string()
+        } else {
+            format!("{p}.{n}")
+        }
+    }
+    pub fn flush(self, sum: &mut vq_util::Summary) {
+        for ((p, n), v) in self.c {
+            sum.count(&Self::key(p, n), v);
+        }
+        for ((p, n), v) in self.mn {
+            sum.min(&Self::key(p, n), v);
+        }
+        for ((p, n), v) in self.mx {
+            sum.max(&Self::key(p, n), v);
+        }
+    }
+}
